@@ -115,4 +115,63 @@ def generateFormatRegex (ft : LongFormatType) (placeholder : RE) : RE :=
   | none => integerRegexDefinition placeholder ft.thousandsMark
   | some d => doubleRegexDefinition placeholder ft.thousandsMark d
 
+/-! ### NumbersWithPlaceHolder / DoubleDecimalPointRegex of the cultures that share the plain sign prefix
+
+`(((?<!{lb1})-\s*)|{b2})\d+(?!{nla})(?={placeholder})` and `(…)\d+[{marks}]\d+(?!{nla})(?={placeholder})`: the
+look-behind body `lb1`, the boundary part `b2`, the negative look-ahead body `nla` and the mark class differ per culture
+and are read off the regenerated AST by the projections below (`plainShapeOK`, `decimalShapeOK` check that the AST IS the
+template applied to its own projections). -/
+
+/-- `(?<=\b)` -/
+def afterBoundary : RE := .look false false (.seq .wordB .eps)
+
+/-- `(((?<!{lb1})-\s*)|{b2})` -/
+def signPrefixOf (lb1 b2 : RE) : RE :=
+  .grp 1 (.seq (.alt
+    (.seq (.grp 2 (.seq (.look false true lb1) (.seq (chr 45) (.seq blanks .eps)))) .eps)
+    (.seq b2 .eps)) .eps)
+
+/-- `{sign}\d+(?!{nla})(?={placeholder})` -/
+def numbersWithPlaceHolderOf (lb1 b2 nla ph : RE) : RE :=
+  .seq (signPrefixOf lb1 b2) (.seq digits1 (.seq (.look true true nla) (.seq (.look true false (.seq ph .eps)) .eps)))
+
+/-- `{sign}\d+[{marks}]\d+(?!{nla})(?={placeholder})` -/
+def doubleDecimalPointOf (lb1 b2 : RE) (marks : List Item) (nla ph : RE) : RE :=
+  .seq (signPrefixOf lb1 b2) (.seq digits1 (.seq (.cls marks false) (.seq digits1
+    (.seq (.look true true nla) (.seq (.look true false (.seq ph .eps)) .eps)))))
+
+/-- `(?<=\b)` alone, or `((?<=\b)(?<!{lb2}))` as group 3 -/
+def boundaryWith (lb2 : Option RE) : RE :=
+  match lb2 with
+  | none => afterBoundary
+  | some b => .grp 3 (.seq afterBoundary (.seq (.look false true b) .eps))
+
+def lb1Of : RE → RE
+  | .seq (.grp _ (.seq (.alt (.seq (.grp _ (.seq (.look _ _ x) _)) _) _) _)) _ => x
+  | _ => .eps
+
+def lb2Of : RE → Option RE
+  | .seq (.grp _ (.seq (.alt _ (.seq (.grp _ (.seq _ (.seq (.look _ _ x) _))) _)) _)) _ => some x
+  | _ => none
+
+def plainNlaOf : RE → RE
+  | .seq _ (.seq _ (.seq (.look _ _ x) _)) => x
+  | _ => .eps
+
+def plainPhOf : RE → RE
+  | .seq _ (.seq _ (.seq _ (.seq (.look _ _ (.seq x _)) _))) => x
+  | _ => .eps
+
+def decMarksOf : RE → List Item
+  | .seq _ (.seq _ (.seq (.cls m _) _)) => m
+  | _ => []
+
+def decNlaOf : RE → RE
+  | .seq _ (.seq _ (.seq _ (.seq _ (.seq (.look _ _ x) _)))) => x
+  | _ => .eps
+
+def decPhOf : RE → RE
+  | .seq _ (.seq _ (.seq _ (.seq _ (.seq _ (.seq (.look _ _ (.seq x _)) _))))) => x
+  | _ => .eps
+
 end RTV.NumExtract
